@@ -210,9 +210,14 @@ Fixpoint file_phase_fin (fuel : nat) (c : jcfg) (w : world) (lastfin : option N)
       end
   end.
 
+(* the memory the final-blocks-only filter starts with (fix "none at or below the cursor"): a consumer that resumes from
+   a cursor (cursor-is-start, not a target cursor) holds every final block up to the cursor block *)
+Definition start_mem (c : jcfg) : option N :=
+  if j_mode c =? 1 then match j_cursor c with Some cu => Some (rn (cu_blk cu)) | None => None end else None.
+
 (* Stream.Run: merged = canonical blocks present in merged files *)
 (* the default and custom step filters are stateless (live_phase, file_phase); final-blocks-only runs the
-   stateful phases from an empty memory *)
+   stateful phases from the memory start_mem *)
 Definition stream_run (c : jcfg) (w : world) (ps : list (N * N)) (merged_end : N) (merged forked : list block) : list event * jerr :=
   let head := match hub_head (w_hub w) with Some (r, _) => rn r | None => 0 end in
   let start := abs_start (j_first c) (j_start c) head in
@@ -222,7 +227,7 @@ Definition stream_run (c : jcfg) (w : world) (ps : list (N * N)) (merged_end : N
   then ([], JInvalidArg) else
   let fuel := (40 * (length (w_rest w) + length merged + 20))%nat in
   match live_try c (w_hub w) start with
-  | BOk burst => if j_filter c =? 1 then live_phase_fin fuel c w None burst 0 ps []
+  | BOk burst => if j_filter c =? 1 then live_phase_fin fuel c w (start_mem c) burst 0 ps []
                  else live_phase fuel c w burst 0 ps []
   | BFuel | BPanic => ([], JFuel)
   | BErr =>
@@ -242,6 +247,6 @@ Definition stream_run (c : jcfg) (w : world) (ps : list (N * N)) (merged_end : N
                   | RsResolveErr => JInvalidArg   (* Stream.Run maps ErrResolveCursor to invalid argument *)
                   | RsNotImplemented => JOther
                   | RsFuel => JFuel end in
-      if j_filter c =? 1 then file_phase_fin fuel c w None (hub_lowest (w_hub w)) fevs fend 0 ps []
+      if j_filter c =? 1 then file_phase_fin fuel c w (start_mem c) (hub_lowest (w_hub w)) fevs fend 0 ps []
       else file_phase fuel c w (hub_lowest (w_hub w)) fevs fend 0 ps []
   end.
